@@ -499,6 +499,10 @@ def run_one(acc, c):
     inputs = [(0,), (3,), (-2,)]
     case = {"prog": prog, "fam": c["fam"], "local_subs": c.get("local_subs", False)}
     run_program(acc, case, prog, inputs, ["mc1", "mc3"], (False, True), explore_all=False, local_subs=c.get("local_subs", False))
+    if c["fam"] in ("A", "R", "P") and sum(1 for st in prog["body"] if st["k"] in ("call", "sub")) <= 4:
+        # resources rotated over the call sites of the OUTER body (main-thread / async-thread / thread next to the inner DAG's argument
+        # stubs, which run inline), max_concurrency 2, every completion order
+        run_program(acc, case, prog, inputs[:1], ["res_rot"], (False,), explore_all=True, tie_budget=0, max_execs=150, local_subs=c.get("local_subs", False))
     acc.mark_nontrivial((c["fam"], c.get("sig"), c.get("ret"), c.get("use"), repr(prog["body"][2]["args"]) if len(prog["body"]) > 2 and "args" in prog["body"][2] else ""))
     if acc.cases <= 2:
         acc.sample({"source": ir.source(prog), "reference": [repr(ir.ref_eval(prog, i)[:2]) for i in inputs]})
